@@ -373,7 +373,7 @@ def explore_config(args):
         return st
 
     def run(prefix):
-        return run_l2(m, cfg, prefix)
+        return run_l2(m, cfg, prefix, horizon=getattr(cfg, "horizon", None) or 400)
 
     def on_exec(s):
         st["executions"] += 1
